@@ -109,6 +109,25 @@ func toR(s *smf.SMF, err error, pan string) R {
 
 // readFrom calls smf.ReadFrom under recover and a watchdog; returns the result, bytes allocated, milliseconds.
 func readFrom(rd io.Reader) (R, uint64, int64) {
+	return readWith(func() (*smf.SMF, error) {
+		if useLog {
+			return smf.ReadFrom(rd, smf.Log(smf.LogTo(io.Discard)))
+		}
+		return smf.ReadFrom(rd)
+	})
+}
+
+// readPath reads through the file-level entry point smf.ReadFile.
+func readPath(pth string) (R, uint64, int64) {
+	return readWith(func() (*smf.SMF, error) {
+		if useLog {
+			return smf.ReadFile(pth, smf.Log(smf.LogTo(io.Discard)))
+		}
+		return smf.ReadFile(pth)
+	})
+}
+
+func readWith(read func() (*smf.SMF, error)) (R, uint64, int64) {
 	type res struct {
 		r     R
 		alloc uint64
@@ -120,13 +139,7 @@ func readFrom(rd io.Reader) (R, uint64, int64) {
 		var err error
 		var m0, m1 runtime.MemStats
 		runtime.ReadMemStats(&m0)
-		p := hx.Catch(func() {
-			if useLog {
-				s, err = smf.ReadFrom(rd, smf.Log(smf.LogTo(io.Discard)))
-			} else {
-				s, err = smf.ReadFrom(rd)
-			}
-		})
+		p := hx.Catch(func() { s, err = read() })
 		runtime.ReadMemStats(&m1)
 		a := (m1.TotalAlloc - m0.TotalAlloc) / 1024 // KiB, capped so that it stays a TLC integer
 		if a > 1<<30 {
@@ -219,7 +232,7 @@ type WrRec struct {
 	Ev    string   `json:"ev"`
 	ID    int      `json:"id"`
 	Judge string   `json:"judge"`
-	Log bool `json:"log"` // a Logger is configured (SMF.Logger for writes, smf.Log for reads): must not change any result
+	Log   bool     `json:"log"` // a Logger is configured (SMF.Logger for writes, smf.Log for reads): must not change any result
 	Hist  []Op     `json:"hist"`
 	Bytes hx.B     `json:"bytes"`
 	Size  int64    `json:"size"`
@@ -280,7 +293,7 @@ type RdRec struct {
 	Ev    string   `json:"ev"`
 	ID    int      `json:"id"`
 	Judge string   `json:"judge"`
-	Log bool `json:"log"` // a Logger is configured (SMF.Logger for writes, smf.Log for reads): must not change any result
+	Log   bool     `json:"log"` // a Logger is configured (SMF.Logger for writes, smf.Log for reads): must not change any result
 	Bytes hx.B     `json:"bytes"`
 	Read  R        `json:"read"`
 	Feat  []string `json:"feat"`
